@@ -226,10 +226,11 @@ fn exhaustive_thorough(i: u64, st: &mut Stats) -> CaseResult { exhaustive(i, st,
 fn random_walk(g: &mut Gen, st: &mut Stats) -> CaseResult {
     st.eval();
     let n = match g.below(50) { 0 => 40, 1 ..= 5 => 5 + g.below(8), _ => 1 + g.below(4) };
-    let max_len: u32 = if g.chance(60) { 64 } else { 512 * 1024 };
+    // (limits at the very top of the u32 range: arithmetic on max_len must not wrap)
+    let max_len: u32 = match g.below(20) { 0 => u32::MAX, 1 => u32::MAX - 3, 2 => u32::MAX - 4, 3 ..= 7 => 64, _ => 512 * 1024 };
     let items: Vec<Item> = (0 .. n).map(|_| match g.below(10) {
         0 => Item::Failing(g.below(6)),
-        1 => Item::TooLong(max_len as usize + 1 + g.below(10)),
+        1 if max_len <= 1 << 20 => Item::TooLong(max_len as usize + 1 + g.below(10)),
         2 ..= 5 => Item::V(Val::small(g)),
         _ => { let v = if n > 12 { Val::small(g) } else { Val::any(g) }; if v.encoded().len() > max_len as usize { Item::V(Val::small(g)) } else { Item::V(v) } }
     }).collect();
@@ -246,6 +247,7 @@ fn random_walk(g: &mut Gen, st: &mut Stats) -> CaseResult {
     if info.zeros > 0 { st.class("walk/accept-0") }
     if info.errors > 0 { st.class("walk/transient-error") }
     if n > 4 { st.class("walk/5-40 values on one writer") }
+    if max_len > u32::MAX - 8 { st.class("walk/max_len within 4 of u32::MAX") }
     if items.windows(2).zip(idle.iter()).any(|(w, s)| !*s && matches!(w[0], Item::V(_)) && !matches!(w[1], Item::V(_))) { st.class("walk/refused-value-straight-after-a-write") }
     Ok(())
 }
